@@ -243,6 +243,17 @@ def check(tier, seed, replay=None):
                     stats['detected_body_or_crc'] += 1
         return None, co
 
+    if replay is not None and 'ops' in replay:
+        ops = rebase_ops(ops_from_js(replay['ops']), path)
+        ids = replay.get('ids') or sorted({o['id'] for o in ops if o.get('op') in (20, 21)})
+        text, text_ops, g, grc, gerr = run_case(ops, [tuple(p) for p in replay['patches']], replay.get('mode', 1), ids, path)
+        m, mrc, merr = run_oracle(text)
+        k = next((i for i, l in enumerate(g) if l.startswith('60 ')), len(g))
+        print('damage: %s' % replay.get('damage'))
+        print('implementation after the damaged open:', g[k:k + 4 + len(ids)])
+        print('model after the damaged open:         ', m[k:k + 4 + len(ids)])
+        print('reported: %s' % replay.get('what'))
+        return 0
     corpus = sorted(glob.glob(os.path.join(VERIF, 'corpus', 'C08', '*.json')))
     for fi in range(nfiles):
         if time.time() > t_end or nviol >= 3:
